@@ -1532,7 +1532,7 @@ class Alias(ObjectAliasMixin):
         See also: [`Function`][griffe.Function],
         [`Class`][griffe.Class].
         """
-        return cast("Union[Class, Function]", self.target).decorators
+        return cast("Union[Class, Function]", self.final_target).decorators
 
     @property
     def imports_future_annotations(self) -> bool:
